@@ -660,8 +660,7 @@ def run(tier, seed, stop_first=False):
                 transformed[s['mutation']] += 1
             if s['top_level_decls'] >= 1:
                 distinct.add(s['bin_sha'])
-        if (len(samples) < 3 and r['stages'] and r['lineage'] == LINEAGES[tier][0] and r['seed'] == seeds[0]
-                and r['language'] == LANGS[len(samples)]):
+        if len(samples) < 3 and r['stages'] and not any(x['language'] == r['language'] for x in samples):
             samples.append(dict(language=r['language'], seed=r['seed'], lineage=r['lineage'],
                                 stages=[dict(stage=s['stage'], bin_sha=s['bin_sha'], bin_bytes=s['bin_bytes'],
                                              next_mutation=s.get('mutation'), transformed=s.get('transformed'))
